@@ -492,4 +492,124 @@ NB_File(F) == \E k \in DOMAIN F : \E q \in DOMAIN F[k].cats : NB_Category(F[k].c
 
 ImplRoundTrip(F) == ImplReadFile(ImplSerializeFile(F))
 IdealRoundTrip(F) == [oc |-> "ok", f |-> F]
+
+(* ================================================================== construction forms *)
+(* "Stored in a CIF category": the API accepts the values of a column in many forms - a single
+   string, a list, an ndarray, a CIFData, a CIFColumn built from any of these, with or without
+   an explicit mask, handed to the constructor of the category or assigned afterwards.  What is
+   stored does not depend on the form:
+     an explicit mask wins (the text under a masked cell is irrelevant),
+     without a mask the cells "." and "?" ARE the two mask states (Dom_Value: a present value is
+     never "." / "?").
+   A raw column is [form, vals, mask]: vals the texts handed over, mask = <<>> (none given) or
+   <<m>> with m the sequence of mask values.  StoredCells ignores the form. *)
+FormsNoMask == {"item", "list", "array", "data", "col_item", "col_list", "col_array", "col_data", "col_data_str"}
+FormsMask   == {"col_item_mask", "col_list_mask", "col_array_mask", "col_data_mask", "col_data_listmask"}
+ItemForms   == {"item", "col_item", "col_item_mask"}          \* a single value, not a sequence: one row only
+Fillers     == {"same", "cross", "junk"}                      \* the text under a masked cell of an explicit mask
+RawCol(name, form, vals, mask) == [name |-> name, form |-> form, vals |-> vals, mask |-> mask]
+StoredCells(raw) ==
+  IF raw.mask = <<>> THEN [i \in DOMAIN raw.vals |-> CellOf(raw.vals[i])]
+  ELSE [i \in DOMAIN raw.vals |-> IF raw.mask[1][i] = 0 THEN P(raw.vals[i])
+                                  ELSE [m |-> raw.mask[1][i], v |-> <<>>]]
+StoredFile(R) ==
+  [k \in DOMAIN R |-> Blk(R[k].name,
+     [q \in DOMAIN R[k].cats |-> Cg(R[k].cats[q].name,
+        [j \in DOMAIN R[k].cats[q].cols |-> Col(R[k].cats[q].cols[j].name, StoredCells(R[k].cats[q].cols[j]))])])]
+FillerText(fi, m) ==
+  CASE fi = "same"  -> CellText([m |-> m, v |-> <<>>])
+    [] fi = "cross" -> IF m = 1 THEN <<"qm">> ELSE <<"dot">>
+    [] fi = "junk"  -> <<"j", "sp", "sq">>
+\* a way of handing the column `col` over in the given form
+RawOfCol(col, form, fi) ==
+  LET f == IF form \in ItemForms /\ Len(col.cells) # 1
+           THEN (IF form = "col_item_mask" THEN "col_list_mask" ELSE "list") ELSE form
+  IN IF f \in FormsNoMask
+     THEN RawCol(col.name, f, [i \in DOMAIN col.cells |-> CellText(col.cells[i])], <<>>)
+     ELSE RawCol(col.name, f, [i \in DOMAIN col.cells |-> IF col.cells[i].m = 0 THEN col.cells[i].v
+                                                           ELSE FillerText(fi, col.cells[i].m)],
+                 <<[i \in DOMAIN col.cells |-> col.cells[i].m]>>)
+RawOfFile(F, form, fi) ==
+  [k \in DOMAIN F |-> [name |-> F[k].name, cats |->
+     [q \in DOMAIN F[k].cats |-> [name |-> F[k].cats[q].name, cols |->
+        [j \in DOMAIN F[k].cats[q].cols |-> RawOfCol(F[k].cats[q].cols[j], form, fi)]]]]]
+Dom_Raw(raw) == /\ raw.form \in FormsNoMask \cup FormsMask
+                /\ (raw.form \in FormsNoMask) = (raw.mask = <<>>)
+                /\ raw.form \in ItemForms => Len(raw.vals) = 1
+                /\ raw.mask # <<>> => /\ Len(raw.mask[1]) = Len(raw.vals)
+                                      /\ \A i \in DOMAIN raw.vals : raw.mask[1][i] \in {0, 1, 2}
+
+(* ================================================================== equality of contents *)
+(* File, block and category are mappings: equal iff the same names carry equal values, whatever
+   the order of insertion; a column is its sequence of cells (rows in order, masks included). *)
+NameSet(d)   == {d[i].name : i \in DOMAIN d}
+ByName(d, n) == d[CHOOSE i \in DOMAIN d : d[i].name = n]
+TEqCat(c, d)   == NameSet(c.cols) = NameSet(d.cols)
+                  /\ \A n \in NameSet(c.cols) : ByName(c.cols, n).cells = ByName(d.cols, n).cells
+TEqBlock(b, d) == NameSet(b.cats) = NameSet(d.cats)
+                  /\ \A n \in NameSet(b.cats) : TEqCat(ByName(b.cats, n), ByName(d.cats, n))
+TEqFile(F, G)  == NameSet(F) = NameSet(G)
+                  /\ \A n \in NameSet(F) : TEqBlock(ByName(F, n), ByName(G, n))
+\* A, B: results [oc, f] of reading two texts; the answer of `==` at the three levels, through the
+\* block named bn and its category named cn ("na": the level cannot be reached in one of the two)
+Verdict(b) == IF b THEN "eq" ELSE "ne"
+HasName(d, n) == n \in NameSet(d)
+EqLevels(A, B, bn, cn) ==
+  IF A.oc # "ok" \/ B.oc # "ok" THEN [file |-> "na", block |-> "na", cat |-> "na"]
+  ELSE LET hb == HasName(A.f, bn) /\ HasName(B.f, bn)
+           ba == ByName(A.f, bn)   bb == ByName(B.f, bn)
+           hc == hb /\ HasName(ba.cats, cn) /\ HasName(bb.cats, cn)
+       IN [file  |-> Verdict(TEqFile(A.f, B.f)),
+           block |-> IF hb THEN Verdict(TEqBlock(ba, bb)) ELSE "na",
+           cat   |-> IF hc THEN Verdict(TEqCat(ByName(ba.cats, cn), ByName(bb.cats, cn))) ELSE "na"]
+
+(* ================================================================== other renderings of a file *)
+(* The same table can be written in many ways: another legal quoting style, other blank runs between
+   the fields, a one-row category as a loop_, comment and empty lines, every value on a line of its
+   own.  A style is [q, loop1, sep, cmt, split]:
+     q      "impl": the style _escape chooses; "bare" | "sq" | "dq" | "text": this style wherever
+            CIF 1.1 allows it for the value at its position (RefStyles), else the first legal one
+     loop1  a one-row category is written as a loop_
+     sep    "sp" | "sp3" | "tab": the blank run between two fields of a line
+     cmt    a comment line and an empty line before, a '#' line after every category
+     split  every value on a line of its own (an item's value on the line after its name)
+   Containers parsed from two renderings of one table must be equal, and the answer must not depend
+   on which parts of them have been accessed (parsed) before. *)
+Style(q, loop1, sep, cmt, split) == [q |-> q, loop1 |-> loop1, sep |-> sep, cmt |-> cmt, split |-> split]
+SepText(s) == CASE s = "sp" -> <<"sp">> [] s = "sp3" -> <<"sp", "sp", "sp">> [] s = "tab" -> <<"tab">>
+VarStyle(c, bol, st) ==
+  IF st.q = "impl" THEN (IF c.m # 0 THEN "bare" ELSE EscapeStyle(c.v)) ELSE RefStyle(c, bol, st.q)
+\* a run of values; firstBol = FALSE: something (the data name) precedes on the line
+VarRow(cells, firstBol, st) ==
+  LET r == FoldLeft(LAMBDA acc, c :
+             LET sty == VarStyle(c, acc.bol, st)
+                 t   == RefRender(c, sty)
+             IN IF sty = "text" THEN [txt |-> acc.txt \o (IF acc.bol THEN Tail(t) ELSE t), bol |-> TRUE]
+                ELSE IF st.split
+                     THEN [txt |-> Cat3(acc.txt, IF acc.bol THEN <<>> ELSE <<"nl">>, Append(t, "nl")), bol |-> TRUE]
+                ELSE [txt |-> Cat3(acc.txt, IF acc.bol THEN <<>> ELSE SepText(st.sep), t), bol |-> FALSE],
+             [txt |-> <<>>, bol |-> firstBol], cells)
+  IN IF r.bol THEN r.txt ELSE Append(r.txt, "nl")
+VarSerializeCategory(c, st) ==
+  LET single == Len(c.cols[1].cells) = 1 /\ ~st.loop1
+      body == IF single
+              THEN FlattenSeq([j \in DOMAIN c.cols |->
+                      KeyText(c.name, c.cols[j].name) \o VarRow(<<c.cols[j].cells[1]>>, FALSE, st)])
+              ELSE Cat3(<<"loop_", "nl">>,
+                        FlattenSeq([j \in DOMAIN c.cols |-> Append(KeyText(c.name, c.cols[j].name), "nl")]),
+                        FlattenSeq([i \in DOMAIN c.cols[1].cells |->
+                                      VarRow([j \in DOMAIN c.cols |-> c.cols[j].cells[i]], TRUE, st)]))
+  IN Cat3(IF st.cmt THEN <<"hash", "sp", "r", "nl", "nl">> ELSE <<>>, body,
+          IF st.cmt THEN <<"hash", "nl">> ELSE <<>>)
+VarSerializeFile(F, st) ==
+  FlattenSeq([k \in DOMAIN F |->
+     Cat3(<<"data_">>, F[k].name, <<"nl">>)
+       \o FlattenSeq([q \in DOMAIN F[k].cats |-> VarSerializeCategory(F[k].cats[q], st)])])
+\* the style with every knob turned
+OppStyle(st) ==
+  Style(CASE st.q = "impl" -> "dq" [] st.q = "dq" -> "impl" [] st.q = "sq" -> "text" [] st.q = "text" -> "sq"
+          [] st.q = "bare" -> "sq",
+        ~st.loop1,
+        CASE st.sep = "sp" -> "sp3" [] st.sep = "sp3" -> "tab" [] st.sep = "tab" -> "sp",
+        ~st.cmt, ~st.split)
 =============================================================================
